@@ -455,7 +455,23 @@ func unsSetCanon(pb *pbv1.UnsignedDataSet) string {
 }
 
 // execCorr executes one correspondence op on the real code and returns the canonical output.
+// monitors evaluated inside correspondence ops (independent of the model)
+var pending [][2]string
+
+func monitorVersion(op string, buf []byte, hdr int, out string) {
+	if len(buf) >= hdr && le64(buf[0:8]) >= uint64(len(versions)) && out != "err version" {
+		pending = append(pending, [2]string{"codec:unknown_version_accepted",
+			fmt.Sprintf("%s: version word %d is not a known data version but the decoder answered `%s`; bytes=%s", op, le64(buf[0:8]), out, clip(hx2(buf), 4000))})
+	}
+}
+
 func execCorr(run *hx.Run, f []string) (out string) {
+	pending = pending[:0]
+	defer func() {
+		for _, p := range pending {
+			run.Violate(p[0], p[1])
+		}
+	}()
 	if pan := safely(func() { out = execCorr1(f) }); pan != "" {
 		run.Violate("codec:panic:wrapper:"+f[0]+":corr", "panic in correspondence op "+f[0]+": "+pan)
 		return "panic"
@@ -523,14 +539,18 @@ func execCorr1(f []string) string {
 				flag = fmt.Sprintf(" %d", uint64(*idx))
 			}
 		}
+		res := ""
 		if err != nil {
 			c := classify(err)
 			if c == "inner" {
 				c += ":" + f[2]
 			}
-			return "err " + c
+			res = "err " + c
+		} else {
+			res = fmt.Sprintf("ok %d%s %s", verNum(v), flag, hx2(fi.got))
 		}
-		return fmt.Sprintf("ok %d%s %s", verNum(v), flag, hx2(fi.got))
+		monitorVersion(f[0], buf, map[string]int{"ub": 13, "uv": 12, "ui": 20}[f[0]], res)
+		return res
 	case "tm":
 		if len(f) != 5 {
 			return bad
@@ -577,8 +597,11 @@ func execCorr1(f []string) string {
 					stage = "noidx "
 				}
 			}
-			return "err " + stage + classify(err)
+			res := "err " + stage + classify(err)
+			monitorVersion("tu "+f[1], buf, map[string]int{"VSP": 13, "VP": 13, "VA": 20, "VSAP": 12, "VAA": 12}[f[1]], strings.Replace(res, stage, "", 1))
+			return res
 		}
+		monitorVersion("tu "+f[1], buf, 20, "ok")
 		return "ok " + getHeader(f[1], p)
 	case "am":
 		if len(f) != 9 {
